@@ -7,6 +7,7 @@ domain (declarations, assignments, if on a single input bit -> case split,
 switch on up to 4 input bits -> enumeration, return), inlining calls to small
 repository functions.  No solver: forms are normalised sets, compared
 syntactically."""
+from .flow import folded
 from .model import strip, strip_all, walk, show, notpl, is_call, call_args
 from .facts import AnalysisBroken
 
@@ -340,7 +341,16 @@ class Evaluator:
                 key = tgt["d"]
                 vs = self._expr(fn, s["c"][1], env, depth)
                 if len(vs) != 1:
-                    raise Unsupported("forking assignment")
+                    if s["op"] != "=":
+                        raise Unsupported("forking compound assignment")
+                    # one path per case of the right-hand side (e.g. a table indexed by two input bits)
+                    outp = []
+                    for a2, rv in vs:
+                        w = tgt.get("w") or rv.width
+                        e2 = {kk: (vv.subst(a2) if isinstance(vv, BV) else vv) for kk, vv in env.items()}
+                        e2[key] = rv.resize(w, False) if rv.width >= w else self._conv(rv, w, s["c"][1])
+                        outp.append((a2, e2))
+                    return outp
                 a2, rv = vs[0]
                 w = tgt.get("w") or rv.width
                 if s["op"] != "=":
@@ -423,6 +433,11 @@ class Evaluator:
         if k == "MemberExpr":
             v = env.get(n["d"])
             if v is None:
+                # a field of a struct value bound from a constant (a parameter passed `{0, 2}`-style constants)
+                base = strip_all(n["c"][0]) if n.get("c") else None
+                sv = env.get(base.get("d")) if base is not None and base.get("k") == "DeclRefExpr" else None
+                if isinstance(sv, tuple) and sv and sv[0] == "struct" and n.get("n") in sv[1]:
+                    return [({}, sv[1][n["n"]].resize(w or sv[1][n["n"]].width))]
                 raise Unsupported("unknown member %s" % n.get("n"))
             return [({}, v)]
         if k == "UnaryOperator":
@@ -514,7 +529,31 @@ class Evaluator:
                 return bv_shl(r, lv.bit_length() - 1)
             if kv is not None and lv is not None:
                 return BV.const(kv * lv, l.width)
-            raise Unsupported("multiplication by a non power of two")
+            # a value known to be 0 or 1 times a constant: each set bit of the constant carries that one bit
+            for one, c in ((l, kv), (r, lv)):
+                if c is not None and all(is_const(b) and b[1] == 0 for b in one.bits[1:]):
+                    b0 = one.bits[0]
+                    return BV([b0 if (c >> i) & 1 else bconst(0) for i in range(one.width)])
+            # a general constant factor: sum of shifted copies, exact while they do not overlap
+            for val, c in ((l, kv), (r, lv)):
+                if c is not None and c > 0:
+                    acc = BV.const(0, val.width)
+                    for i in range(c.bit_length()):
+                        if (c >> i) & 1:
+                            acc = bv_add(acc, bv_shl(val, i))
+                    return acc
+            raise Unsupported("multiplication of two symbolic values")
+        if op in ("/", "%"):
+            kv = r.value()
+            if kv is not None and kv > 0 and (kv & (kv - 1)) == 0:
+                k = kv.bit_length() - 1
+                if op == "/":
+                    return bv_shr(l, k, False)
+                return BV([b if i < k else bconst(0) for i, b in enumerate(l.bits)])
+            lv = l.value()
+            if kv is not None and lv is not None and kv != 0:
+                return BV.const(lv // kv if op == "/" else lv % kv, l.width)
+            raise Unsupported("division by a value that is not a constant power of two")
         if op == "-":
             lv, rv = l.value(), r.value()
             if lv is not None and rv is not None:
@@ -528,6 +567,29 @@ class Evaluator:
             raise Unsupported("symbolic comparison")
         raise Unsupported("binary %s" % op)
 
+    def _const_table(self, fn, base):
+        """Values of a constant array (static const local or global with a braced initialiser), or None."""
+        b = strip_all(base)
+        if b is None or b.get("k") != "DeclRefExpr":
+            return None
+        init = None
+        for v in fn.walk():
+            if v.get("k") == "VarDecl" and v.get("d") == b.get("d") and v.get("c") and (v.get("const") or "const" in (v.get("t") or "")):
+                init = strip_all(v["c"][0])
+        if init is None:
+            for g in self.prog.globals.values():
+                if g["n"] == b.get("n") and g.get("init") and (g.get("const") or g.get("constexpr")):
+                    init = strip_all(g["init"])
+        if init is None or init.get("k") != "InitListExpr":
+            return None
+        vals = []
+        for c in init.get("c", []):
+            v = folded(c)
+            if v is None:
+                return None
+            vals.append(v)
+        return vals
+
     def _subscript(self, fn, base, idx, node, env, depth):
         iv = 0
         if idx is not None:
@@ -536,6 +598,21 @@ class Evaluator:
                 raise Unsupported("forking index")
             iv = vs[0][1].value()
             if iv is None:
+                # a constant table indexed by a few input bits: one case per value of those bits
+                table = self._const_table(fn, base)
+                ibv = vs[0][1]
+                sym = [b for b in ibv.bits if not is_const(b)]
+                if table is not None and 0 < len(sym) <= 6 and all(b is not TOP and len(b[0]) == 1 for b in sym):
+                    names = sorted({next(iter(b[0])) for b in sym})
+                    out = []
+                    w = node.get("w") or 32
+                    for mask in range(1 << len(names)):
+                        asg = {nm: (mask >> i) & 1 for i, nm in enumerate(names)}
+                        k_ = ibv.subst(asg).value()
+                        if k_ is None or k_ >= len(table):
+                            raise Unsupported("table index out of range")
+                        out.append((asg, BV.const(table[k_], w)))
+                    return out
                 raise Unsupported("non-constant index %s" % show(idx))
         b = strip_all(base)
         # pointer arithmetic base: (p + k)[i]
@@ -556,6 +633,40 @@ class Evaluator:
         if v is None:
             raise Unsupported("subscript of a non-input array %s" % show(base))
         return [({}, v)]
+
+    def _struct_constant(self, fn, a, ptype):
+        """("struct", {field: BV}) when the argument is a constant object of a plain struct type whose
+        initialiser is a braced list of integer constants; None otherwise."""
+        x = strip_all(a)
+        for _ in range(3):
+            if x is not None and x.get("k") in ("CXXConstructExpr", "CXXTemporaryObjectExpr") and len(x.get("c", [])) == 1:
+                x = strip_all(x["c"][0])
+        init = None
+        if x is not None and x.get("k") == "InitListExpr":
+            init = x
+        elif x is not None and x.get("k") in ("DeclRefExpr", "MemberExpr") and not x.get("w"):
+            nm = x.get("n")
+            for g in self.prog.globals.values():
+                if g["n"] == nm and g.get("init") and (g.get("const") or g.get("constexpr")):
+                    i2 = strip_all(g["init"])
+                    for _ in range(3):
+                        if i2 is not None and i2.get("k") in ("CXXConstructExpr",) and len(i2.get("c", [])) == 1:
+                            i2 = strip_all(i2["c"][0])
+                    if i2 is not None and i2.get("k") == "InitListExpr":
+                        init = i2
+        if init is None:
+            return None
+        rt = notpl((ptype or "").replace("const ", "").replace("&", "").strip())
+        rec = [rc for q_, rc in self.prog.records.items() if notpl(q_).split("::")[-1] == rt.split("::")[-1]]
+        if not rec or len(rec[0]["fields"]) != len(init.get("c", [])):
+            return None
+        fields = {}
+        for f_, c in zip(rec[0]["fields"], init["c"]):
+            v = folded(c)
+            if v is None or not f_.get("w"):
+                return None
+            fields[f_["n"]] = BV.const(v, f_["w"])
+        return ("struct", fields)
 
     def _pointer(self, fn, a, env, depth):
         """("ptr", base array node, constant offset) for a pointer/reference-valued expression:
@@ -609,6 +720,10 @@ class Evaluator:
         assume = {}
         for p, a in zip(callee.params, args):
             pt = p.get("ct") or p.get("t") or ""
+            sc = self._struct_constant(fn, a, pt)
+            if sc is not None:
+                cenv[p["d"]] = sc
+                continue
             if "*" in pt or "&" in pt and not p.get("w"):
                 # pointer/reference to an input array (+ constant offset)
                 cenv[p["d"]] = self._pointer(fn, a, env, depth)
